@@ -1,8 +1,415 @@
-//! C09 — not implemented yet.
+//! C09 — three-valued logic, equality and ordering obey their laws on all values.
+//!
+//! Implementation: `and or = != < <= > >= between in` evaluated by the real evaluator on
+//! values bound to the names a, b, c in the scope. Model: `Dmn.Value.{and3, or3, eqV, …}`.
+//! The laws themselves are evaluated on the implementation's answers (no oracle needed).
 
-use crate::report::Report;
+use crate::model::Model;
+use crate::report::{Kind, Report};
+use crate::rng::Rng;
+use crate::util::guarded;
+use crate::vals::value_sexp;
 use crate::Cfg;
+use dmntk_feel::context::FeelContext;
+use dmntk_feel::values::Value;
+use dmntk_feel::{Evaluator, FeelNumber, Name, Scope};
+use serde_json::json;
 
-pub fn run(_cfg: &Cfg) -> Report {
-  Report::new("C09", "not implemented")
+pub fn eval_text(scope: &Scope, text: &str) -> Value {
+  match dmntk_feel_parser::parse_expression(scope, text, false) {
+    Ok(node) => dmntk_feel_evaluator::evaluate(scope, &node).unwrap_or(Value::Null(Some("build error".into()))),
+    Err(_) => Value::Null(Some("parse error".into())),
+  }
+}
+
+fn prepared(text: &str) -> Evaluator {
+  let mut ctx = FeelContext::default();
+  for n in ["a", "b", "c"] {
+    ctx.set_entry(&Name::from(n), Value::Null(None));
+  }
+  let scope: Scope = ctx.into();
+  let node = dmntk_feel_parser::parse_expression(&scope, text, false).unwrap_or_else(|e| panic!("cannot parse {}: {}", text, e));
+  dmntk_feel_evaluator::prepare(&node).unwrap_or_else(|e| panic!("cannot build {}: {}", text, e))
+}
+
+fn scope_of(vals: &[(&str, &Value)]) -> Scope {
+  let mut ctx = FeelContext::default();
+  for (n, v) in vals {
+    ctx.set_entry(&Name::from(*n), (*v).clone());
+  }
+  ctx.into()
+}
+
+fn show(v: &Value) -> String {
+  match value_sexp(v) {
+    Some(s) => s.to_string(),
+    None => format!("(unencodable {})", v),
+  }
+}
+
+fn as_bool(v: &Value) -> Option<bool> {
+  match v {
+    Value::Boolean(b) => Some(*b),
+    _ => None,
+  }
+}
+
+/// Kleene operand: booleans stay, everything else counts as null.
+fn kleene(v: &Value) -> Option<bool> {
+  as_bool(v)
+}
+
+fn kleene_and(a: Option<bool>, b: Option<bool>) -> Option<bool> {
+  match (a, b) {
+    (Some(false), _) | (_, Some(false)) => Some(false),
+    (Some(true), Some(true)) => Some(true),
+    _ => None,
+  }
+}
+
+fn kleene_or(a: Option<bool>, b: Option<bool>) -> Option<bool> {
+  match (a, b) {
+    (Some(true), _) | (_, Some(true)) => Some(true),
+    (Some(false), Some(false)) => Some(false),
+    _ => None,
+  }
+}
+
+fn ordered_kind(v: &Value) -> Option<&'static str> {
+  match v {
+    Value::Number(_) => Some("number"),
+    Value::String(_) => Some("string"),
+    Value::Date(_) => Some("date"),
+    _ => None,
+  }
+}
+
+pub fn alphabet_texts() -> Vec<&'static str> {
+  vec![
+    "null",
+    "true",
+    "false",
+    "-1",
+    "0",
+    "-0",
+    "1",
+    "1.0",
+    "1.00",
+    "2",
+    "0.1",
+    "100",
+    "1e2",
+    "12345678901234567890123456789012",
+    "99999999999999999999999999999999999",
+    r#""""#,
+    r#""a""#,
+    r#""b""#,
+    r#""ab""#,
+    r#""A""#,
+    r#""é""#,
+    r#""🙏""#,
+    r#"date("2021-02-03")"#,
+    r#"date("2021-02-04")"#,
+    r#"date("2020-02-29")"#,
+    r#"date("1999-12-31")"#,
+    r#"time("10:11:12")"#,
+    r#"time("10:11:12Z")"#,
+    r#"time("11:11:12+01:00")"#,
+    r#"time("10:11:13")"#,
+    r#"date and time("2021-02-03T10:11:12")"#,
+    r#"date and time("2021-02-03T10:11:12Z")"#,
+    r#"date and time("2021-02-03T11:11:12+01:00")"#,
+    r#"date and time("2021-02-04T00:00:00")"#,
+    r#"duration("P1D")"#,
+    r#"duration("PT24H")"#,
+    r#"duration("PT1H")"#,
+    r#"duration("-PT1H")"#,
+    r#"duration("P1Y")"#,
+    r#"duration("P12M")"#,
+    r#"duration("P1M")"#,
+    "[]",
+    "[1]",
+    "[1,2]",
+    "[2,1]",
+    "[1.0,2.00]",
+    "[null]",
+    "[[1]]",
+    r#"["a"]"#,
+    "[true,null]",
+    "{}",
+    "{a:1}",
+    "{a:1.0}",
+    "{a:2}",
+    "{b:1}",
+    r#"{a:1,b:"x"}"#,
+    "{b:1,c:1}",
+    "{a:null}",
+    "{a:{b:1}}",
+    "{a:[1]}",
+    "[1..2]",
+    "(1..2]",
+    r#"["a".."b"]"#,
+    "function(x) x",
+    "function() 1",
+  ]
+}
+
+pub fn run(cfg: &Cfg) -> Report {
+  let mut rep = Report::new(
+    "C09",
+    "ordered pairs (quick and thorough) and triples (a sample in quick, all in thorough) over a value alphabet of ~65 values (null, booleans, numbers incl. equal values of different scale and 34+ digit ones, strings, dates, times, date-times, both duration kinds, lists, contexts, ranges, functions), plus random numbers / strings / dates. Non-trivial: at least one operand is not null; distinct by rendered request.",
+  );
+  let mut model = Model::start(&cfg.driver);
+  let mut rng = Rng::new(cfg.seed);
+  let thorough = cfg.tier == "thorough";
+  let empty = Scope::default();
+  let mut alphabet: Vec<(String, Value)> = vec![];
+  for t in alphabet_texts() {
+    let v = eval_text(&empty, t);
+    if let Value::Null(Some(_)) = v {
+      rep.notes.push(format!("alphabet text {} evaluates to an error null", t));
+    }
+    alphabet.push((t.to_string(), v));
+  }
+  // dates outside chrono's year range: constructed through the public API
+  for (y, m, d) in [(999_999i32, 1u8, 1u8), (999_999, 1, 2), (-999_999, 12, 31), (262_143, 12, 31), (262_144, 1, 1)] {
+    alphabet.push((format!("date({},{},{})", y, m, d), Value::Date(dmntk_feel::FeelDate::new(y, m, d))));
+  }
+  // random members of the ordered kinds
+  let n_random = if thorough { 60 } else { 20 };
+  for _ in 0..n_random {
+    let digits = 1 + rng.below(34);
+    let mut coeff: i128 = 0;
+    for _ in 0..digits {
+      coeff = coeff * 10 + rng.below(10) as i128;
+    }
+    if rng.chance(1, 2) {
+      coeff = -coeff;
+    }
+    let scale = rng.range(-10, 40) as i32;
+    let n = FeelNumber::new(coeff, scale);
+    alphabet.push((n.to_string(), Value::Number(n)));
+    let len = rng.below(4);
+    let s: String = (0..len).map(|_| *rng.pick(&['a', 'b', 'B', 'é', 'z', ' ', '🙏'])).collect();
+    alphabet.push((format!("{:?}", s), Value::String(s)));
+    let (y, m, d) = (rng.range(-400_000, 400_000) as i32, 1 + rng.below(12) as u8, 1 + rng.below(28) as u8);
+    alphabet.push((format!("date({},{},{})", y, m, d), Value::Date(dmntk_feel::FeelDate::new(y, m, d))));
+  }
+  rep.extra.insert("alphabet_size".into(), json!(alphabet.len()));
+  // keep only encodable values
+  let enc: Vec<Option<String>> = alphabet.iter().map(|(_, v)| value_sexp(v).map(|s| s.to_string())).collect();
+
+  let ops: Vec<(&str, &str, Evaluator)> = vec![
+    ("and", "a and b", prepared("a and b")),
+    ("or", "a or b", prepared("a or b")),
+    ("eq", "a = b", prepared("a = b")),
+    ("nq", "a != b", prepared("a != b")),
+    ("lt", "a < b", prepared("a < b")),
+    ("le", "a <= b", prepared("a <= b")),
+    ("gt", "a > b", prepared("a > b")),
+    ("ge", "a >= b", prepared("a >= b")),
+  ];
+  let ev_between = prepared("a between b and c");
+  let ev_in = [
+    (true, true, prepared("a in [b..c]")),
+    (true, false, prepared("a in [b..c)")),
+    (false, true, prepared("a in (b..c]")),
+    (false, false, prepared("a in (b..c)")),
+  ];
+
+  // ------------------------------------------------------------------ pairs
+  let mut reqs = vec![];
+  let mut meta = vec![];
+  let n = alphabet.len();
+  // results[op][i][j]
+  let mut results: Vec<Vec<Vec<Value>>> = vec![vec![vec![Value::Null(None); n]; n]; ops.len()];
+  for i in 0..n {
+    for j in 0..n {
+      let scope = scope_of(&[("a", &alphabet[i].1), ("b", &alphabet[j].1)]);
+      for (k, (name, _, ev)) in ops.iter().enumerate() {
+        let r = match guarded(|| ev(&scope)) {
+          Ok(v) => v,
+          Err(m) => {
+            rep.disagree(Kind::ImplVsSpec, name, &format!("panic in operator {}", name), &format!("a = {}, b = {}", alphabet[i].0, alphabet[j].0), &m, "a value");
+            Value::Null(None)
+          }
+        };
+        results[k][i][j] = r;
+        if let (Some(ea), Some(eb)) = (&enc[i], &enc[j]) {
+          reqs.push(format!("(c09 op2 {} {} {})", name, ea, eb));
+          meta.push((k, i, j));
+        }
+      }
+    }
+  }
+  let answers = model.ask_batch(&reqs);
+  for ((req, ans), (k, i, j)) in reqs.iter().zip(answers.iter()).zip(meta.iter()) {
+    let r = &results[*k][*i][*j];
+    let nontrivial = !matches!(alphabet[*i].1, Value::Null(_)) || !matches!(alphabet[*j].1, Value::Null(_));
+    rep.case(req, nontrivial);
+    let shown = show(r);
+    rep.hit(&format!("{}:{}", ops[*k].0, match r { Value::Boolean(true) => "true", Value::Boolean(false) => "false", _ => "null" }));
+    if &shown != ans {
+      rep.disagree(
+        Kind::ImplVsModel,
+        ops[*k].0,
+        &format!("operator {} differs from model", ops[*k].0),
+        &format!("{} with a = {}, b = {}", ops[*k].1, alphabet[*i].0, alphabet[*j].0),
+        &shown,
+        ans,
+      );
+    }
+    if rep.samples.len() < 6 && nontrivial && *k >= 2 && matches!(r, Value::Boolean(true)) && i != j {
+      rep.sample(json!({"request": req, "implementation": shown, "model": ans}));
+    }
+  }
+  // ------------------------------------------------------------------ laws on pairs
+  let idx = |name: &str| ops.iter().position(|o| o.0 == name).unwrap();
+  let (i_and, i_or, i_eq, i_nq, i_lt, i_le, i_gt, i_ge) = (idx("and"), idx("or"), idx("eq"), idx("nq"), idx("lt"), idx("le"), idx("gt"), idx("ge"));
+  for i in 0..n {
+    for j in 0..n {
+      let (a, b) = (&alphabet[i], &alphabet[j]);
+      let txt = format!("a = {}, b = {}", a.0, b.0);
+      let get = |k: usize, x: usize, y: usize| as_bool(&results[k][x][y]);
+      if get(i_and, i, j) != kleene_and(kleene(&a.1), kleene(&b.1)) {
+        rep.disagree(Kind::ImplVsSpec, "and_table", "'and' deviates from the three-valued truth table", &txt, &show(&results[i_and][i][j]), "Kleene and");
+      }
+      if get(i_or, i, j) != kleene_or(kleene(&a.1), kleene(&b.1)) {
+        rep.disagree(Kind::ImplVsSpec, "or_table", "'or' deviates from the three-valued truth table", &txt, &show(&results[i_or][i][j]), "Kleene or");
+      }
+      if get(i_eq, i, j) != get(i_eq, j, i) {
+        let kind = match (&a.1, &b.1) {
+          (Value::Null(_), _) | (_, Value::Null(_)) => "equality not symmetric (null operand)",
+          (Value::Context(_), Value::Context(_)) => "equality not symmetric (contexts)",
+          _ => "equality not symmetric",
+        };
+        rep.disagree(Kind::ImplVsSpec, "eq_symm", kind, &txt, &show(&results[i_eq][i][j]), &show(&results[i_eq][j][i]));
+      }
+      if get(i_nq, i, j) != get(i_eq, i, j).map(|x| !x) {
+        rep.disagree(Kind::ImplVsSpec, "neq_is_not_eq", "a != b is not the negation of a = b", &txt, &show(&results[i_nq][i][j]), "not (a = b)");
+      }
+      if get(i_lt, i, j) != get(i_gt, j, i) {
+        rep.disagree(Kind::ImplVsSpec, "lt_gt_mirror", "a < b differs from b > a", &txt, &show(&results[i_lt][i][j]), &show(&results[i_gt][j][i]));
+      }
+      if get(i_le, i, j) != get(i_ge, j, i) {
+        rep.disagree(Kind::ImplVsSpec, "le_ge_mirror", "a <= b differs from b >= a", &txt, &show(&results[i_le][i][j]), &show(&results[i_ge][j][i]));
+      }
+      if let (Some(ka), Some(kb)) = (ordered_kind(&a.1), ordered_kind(&b.1)) {
+        if ka == kb {
+          let t = [get(i_lt, i, j), get(i_eq, i, j), get(i_gt, i, j)];
+          let count = t.iter().filter(|x| **x == Some(true)).count();
+          if count != 1 {
+            rep.disagree(
+              Kind::ImplVsSpec,
+              "trichotomy",
+              &format!("not exactly one of <, =, > holds ({})", ka),
+              &txt,
+              &format!("lt={:?} eq={:?} gt={:?}", t[0], t[1], t[2]),
+              "exactly one true",
+            );
+          }
+          let want = kleene_or(get(i_lt, i, j), get(i_eq, i, j));
+          if get(i_le, i, j) != want {
+            rep.disagree(Kind::ImplVsSpec, "le_iff_lt_or_eq", &format!("a <= b differs from (a < b or a = b) ({})", ka), &txt, &show(&results[i_le][i][j]), &format!("{:?}", want));
+          }
+        }
+      }
+    }
+  }
+  // ------------------------------------------------------------------ triples: between / in / and
+  let mut triples: Vec<(usize, usize, usize)> = vec![];
+  if thorough {
+    for i in 0..n {
+      for j in 0..n {
+        for k in 0..n {
+          triples.push((i, j, k));
+        }
+      }
+    }
+  } else {
+    // all triples of one ordered kind among the fixed alphabet, plus a random sample of all triples
+    let ordered: Vec<usize> = (0..n).filter(|i| ordered_kind(&alphabet[*i].1).is_some()).collect();
+    for &i in &ordered {
+      for &j in &ordered {
+        for &k in &ordered {
+          if ordered_kind(&alphabet[i].1) == ordered_kind(&alphabet[j].1) && ordered_kind(&alphabet[j].1) == ordered_kind(&alphabet[k].1) && rng.chance(1, 3) {
+            triples.push((i, j, k));
+          }
+        }
+      }
+    }
+    for _ in 0..20_000 {
+      triples.push((rng.below(n as u64) as usize, rng.below(n as u64) as usize, rng.below(n as u64) as usize));
+    }
+  }
+  let mut treqs = vec![];
+  let mut tmeta = vec![];
+  let mut tresults = vec![];
+  for (i, j, k) in &triples {
+    let scope = scope_of(&[("a", &alphabet[*i].1), ("b", &alphabet[*j].1), ("c", &alphabet[*k].1)]);
+    let txt = format!("a = {}, b = {}, c = {}", alphabet[*i].0, alphabet[*j].0, alphabet[*k].0);
+    let bt = guarded(|| ev_between(&scope)).unwrap_or(Value::Null(Some("panic".into())));
+    if let Value::Null(Some(m)) = &bt {
+      if m == "panic" {
+        rep.disagree(Kind::ImplVsSpec, "between", "panic in between", &txt, "panic", "a value");
+      }
+    }
+    let ins: Vec<Value> = ev_in.iter().map(|(_, _, ev)| guarded(|| ev(&scope)).unwrap_or(Value::Null(None))).collect();
+    if let (Some(x), Some(a), Some(b)) = (&enc[*i], &enc[*j], &enc[*k]) {
+      treqs.push(format!("(c09 between {} {} {})", x, a, b));
+      tmeta.push((tresults.len(), 0usize));
+      for (q, (lc, rc, _)) in ev_in.iter().enumerate() {
+        treqs.push(format!("(c09 inrange {} {} {} {} {})", x, a, lc, b, rc));
+        tmeta.push((tresults.len(), q + 1));
+      }
+    }
+    // the law: x between a and b == x in [a..b] == (a <= x and x <= b), open ends ↔ strict
+    let same_kind = ordered_kind(&alphabet[*i].1).is_some()
+      && ordered_kind(&alphabet[*i].1) == ordered_kind(&alphabet[*j].1)
+      && ordered_kind(&alphabet[*j].1) == ordered_kind(&alphabet[*k].1);
+    if same_kind {
+      let kind = ordered_kind(&alphabet[*i].1).unwrap();
+      let le = |x: usize, y: usize| as_bool(&results[i_le][x][y]);
+      let lt = |x: usize, y: usize| as_bool(&results[i_lt][x][y]);
+      for (q, (lc, rc, _)) in ev_in.iter().enumerate() {
+        let l_ok = if *lc { le(*j, *i) } else { lt(*j, *i) };
+        let r_ok = if *rc { le(*i, *k) } else { lt(*i, *k) };
+        let want = kleene_and(l_ok, r_ok);
+        if as_bool(&ins[q]) != want {
+          rep.disagree(
+            Kind::ImplVsSpec,
+            "between_in_agree",
+            &format!("x in interval differs from the conjunction of comparisons ({})", kind),
+            &format!("{} brackets lc={} rc={}", txt, lc, rc),
+            &show(&ins[q]),
+            &format!("{:?}", want),
+          );
+        }
+      }
+      if as_bool(&bt) != as_bool(&ins[0]) {
+        rep.disagree(Kind::ImplVsSpec, "between_in_agree", &format!("x between a and b differs from x in [a..b] ({})", kind), &txt, &show(&bt), &show(&ins[0]));
+      }
+    }
+    tresults.push((bt, ins));
+    rep.evaluations += 1;
+  }
+  let tanswers = model.ask_batch(&treqs);
+  for ((req, ans), (ti, q)) in treqs.iter().zip(tanswers.iter()).zip(tmeta.iter()) {
+    let r = if *q == 0 { &tresults[*ti].0 } else { &tresults[*ti].1[*q - 1] };
+    rep.case(req, true);
+    let shown = show(r);
+    if &shown != ans {
+      rep.disagree(
+        Kind::ImplVsModel,
+        if *q == 0 { "between" } else { "in_range" },
+        if *q == 0 { "between differs from model" } else { "in range differs from model" },
+        req,
+        &shown,
+        ans,
+      );
+    }
+  }
+  rep.exhaustive = thorough;
+  rep.model_requests = model.requests;
+  rep
 }
